@@ -350,6 +350,8 @@ static void run_case(long k, char *line)
 int main(int argc, char **argv)
 {
   int rc;
+  unsetenv("LOCALDOMAIN");
+  unsetenv("RES_OPTIONS");
   ares_library_init(ARES_LIB_INIT_ALL);
   rc = drv_main(argc, argv, run_case);
   ares_library_cleanup();
